@@ -13,7 +13,9 @@ use proptest::prelude::*;
 use serde::{Deserialize, Serialize};
 use serde_json::{json, Value};
 
-pub const ERR_RISK_ENGINE: u64 = 6009;
+pub fn err_risk_engine() -> u64 {
+    u32::from(marginfi::errors::MarginfiError::RiskEngineInitRejected) as u64
+}
 
 #[derive(Clone, Debug, Serialize, Deserialize)]
 pub struct Pos {
@@ -358,7 +360,7 @@ pub fn run_case(c: &PortCase, stats: &mut CaseStats) -> Result<(), (String, Stri
     // action would have produced is obtained exactly by running it inside a flash-loan bracket
     // (health checks are skipped inside the bracket) and observing the uncommitted state.
     if let Some(code) = err_above {
-        if code == ERR_RISK_ENGINE {
+        if code == err_risk_engine() {
             stats.binds_health = true;
             let a1 = a_star + 1;
             let op_ix = if kind == "withdraw" { w.ix_withdraw(acct, usr.auth, probe_bank, usr.tokens[probe_bank], a1, None) } else { w.ix_borrow(acct, usr.auth, probe_bank, usr.tokens[probe_bank], a1) };
